@@ -10,7 +10,7 @@ CONSTANTS
   MaxLen = 0
   MaxMsg = 16777216
   GenKeys = {"ed1", "rsa1c"}
-  MaxFrames = 4
+  MaxFrames = 99
   AfterEnd = 1
 INVARIANTS OneReplyEach RoundTrip Emit EmitTable
 PROPERTIES RejectKeepsAgent
